@@ -430,6 +430,10 @@ def cli_lemma(o, L, MC):
 PROGRAM_NOREFS = "res /plain on get -> <{ 'n num }>;\nres /other/{ 'id int } on delete -> <>;\n"
 
 
+PROGRAM_URIS = ("let item = /items/{ 'id int };\nlet @page = { 'first item, 'tags [str] `title: \"t\"` };\n"
+                "res item on get -> <{ 'self item, 'next /items/{ 'id int }?{ 'after str } }>;\nres /pages on get -> <@page>;\n")
+
+
 def base_variants():
     """(name, yaml text): the full base, one without `components`, one whose components has no `schemas`."""
     full = BASE_YAML
@@ -454,7 +458,7 @@ def real_cli_roundtrip(o):
         f.write("#!/bin/sh\ncd /verif && exec ./check C14 --replay %s\n" % rdir)
     diffs = []
     n = 0
-    for pname, prog in (("refs", PROGRAM), ("norefs", PROGRAM_NOREFS)):
+    for pname, prog in (("refs", PROGRAM), ("norefs", PROGRAM_NOREFS), ("uris", PROGRAM_URIS)):
         res2 = run_cli(cli, {"main.oal": prog}, workdir=os.path.join(rdir, pname + "-nobase"))
         nob = mirlib.yaml_to_obj(res2["target"]) if res2["target"] else {}
         for bname, btext in base_variants():
